@@ -39,7 +39,7 @@ _ORIG_PUSH = None
 # ----------------------------------------------------------------------------
 # instance generation
 # ----------------------------------------------------------------------------
-THEMES = ['default'] * 6 + ['highcorr_budget', 'share_lo', 'share_lo', 'doubles', 'tfixed_budget', 'dyadic_share', 'early_shift', 'one_sided', 'many_must', 'twins']
+THEMES = ['default'] * 6 + ['highcorr_budget', 'share_lo', 'share_lo', 'doubles', 'tfixed_budget', 'dyadic_share', 'early_shift', 'one_sided', 'many_must', 'twins', 'mirror']
 
 
 def gen_instance(rng, tier, max_admitted=5, force=None, theme=None):
@@ -51,6 +51,7 @@ def gen_instance(rng, tier, max_admitted=5, force=None, theme=None):
     tfixed_budget:   a geo fixed to treatment together with a budget range
     dyadic_share:    geo shares that are exact binary fractions (k/16, k/32, k/64) with a share range whose bounds are
                      such fractions: treatment shares land exactly on the bounds
+    mirror:          one geo is the mirror image of another (counter-seasonal market): correlations near -1
     twins:           one market reported twice under two IDs (identical series): exactly tied scores and perfectly
                      correlated candidates; the searches must still come back (with designs or ValueError)
     many_must:       more geos that may not be excluded than n_geos_max allows: all of them must still be placed
@@ -105,6 +106,10 @@ def gen_instance(rng, tier, max_admitted=5, force=None, theme=None):
     values[g0] = [3 * v if d < n_dates // 2 else v for d, v in enumerate(values[g0])]
   if theme == 'twins' and n_data >= 2:
     values[geos[-1]] = list(values[geos[0]])
+  if theme == 'mirror' and n_data >= 2:
+    src = values[geos[0]]
+    top = max(src) + min(src)
+    values[geos[-1]] = [top - v + rng.randint(-2, 2) for v in src]
   rows = []
   missing = rng.random() < 0.15 and theme not in ('doubles', 'dyadic_share')
   dup = rng.random() < 0.1 and theme not in ('doubles', 'dyadic_share')
@@ -211,6 +216,10 @@ def gen_instance(rng, tier, max_admitted=5, force=None, theme=None):
     params['iroas'] = rng.choice([0.0, 0])
   inst = {'geos': geos, 'n_dates': n_dates, 'rows': rows, 'elig': elig, 'params': params,
           'max_admitted': max_admitted, 'theme': theme}
+  if rng.random() < 0.12:
+    # other confidence settings than the defaults (below one half the A/A interval is reversed)
+    inst['params']['sig_level'] = rng.choice([0.3, 0.45, 0.6, 0.95])
+    inst['params']['power_level'] = rng.choice([0.5, 0.8, 0.9])
   if rng.random() < 0.08:
     inst['min_corr_probe'] = True
   if rng.random() < 0.15:
